@@ -452,6 +452,7 @@ PROPS["C14"] = {
                   for g, c in (("create", None), ("create_place", "cover.placed_on_addressed_asset"), ("place", None), ("cancel", None), ("modify", "cover.modify_requeued"), ("event_new", "cover.new_event_routed"),
                                ("event_cancel", "cover.cancel_event_routed"), ("event_modify", "cover.modify_event_routed")) for a in (0, 1)] + [
                   book("c14_market_admin", "set_time / toggles / reset_trade_vols reach both assets; Market::new per-asset ticks", covers=["cover.reset_reaches_asset_1"], timeout=900),
+                  book("c14_market_modify_routing_small", "Market::modify_order on a market built through the public API (two asks at one price on asset 1): a restated price re-queues as in a stand-alone book, requested volume, asset 0 untouched", covers=["cover.price_only_restated"], timeout=600),
                   de("market_env_step_loop_b2", "MarketEnv<2>::step loop, 2 instructions on symbolic assets", covers=["cover.cross_asset_batch_reordered"], timeout=1500)],
 }
 
